@@ -56,12 +56,17 @@ def xform_cases(ctx, rng):
             if kind == "rect":
                 x0, x1 = sorted(rng.sample(range(n + 1), 2)); y0, y1 = sorted(rng.sample(range(n + 1), 2))
                 q = [x0, y0, x1, y0, x1, y1, x0, y1]
-            elif kind == "para":                                  # rotated squares and sheared parallelograms
+            elif kind in ("para", "near"):                        # rotated squares and sheared parallelograms
                 ox, oy = rng.randint(0, n), rng.randint(0, n)
                 ux, uy, vx, vy = [rng.randint(-n, n) for _ in range(4)]
                 if rng.random() < 0.4:
                     vx, vy = -uy, ux                              # rotated square
                 q = [ox, oy, ox + ux, oy + uy, ox + ux + vx, oy + uy + vy, ox + vx, oy + vy]
+                if kind == "near":                                # a parallelogram with one corner displaced by less than half a
+                    a, b = rng.randint(-(f // 2 - 1), f // 2 - 1), rng.randint(-(f // 2 - 1), f // 2 - 1)   # pixel: slight perspective
+                    if a == 0 and b == 0:
+                        continue
+                    q[6] += a; q[7] += b
             else:
                 q = [rng.randint(0, n) for _ in range(8)]
             if all(0 <= v <= n for v in q) and convex(q):
@@ -75,8 +80,9 @@ def xform_cases(ctx, rng):
     pairs = []
     n = 300 if ctx.quick else 30000
     for i in range(n):
-        f = rng.choice([1, 1, 2])
-        ks = rng.choice(["rect", "para", "persp", "persp"]); kd = rng.choice(["rect", "para", "persp", "persp"])
+        f = rng.choice([1, 1, 2, 8])
+        kinds = ["rect", "para", "persp", "persp"] if f < 4 else ["rect", "para", "near", "near"]
+        ks = rng.choice(kinds); kd = rng.choice(kinds)
         pairs.append(dict(src=quad(ks, f), dst=quad(kd, f), f=f, m=rng.choice([1, 2, 4, 4, 8] if not ctx.quick else [1, 2, 4])))
     out = []
     step = 2000
